@@ -321,6 +321,25 @@ func (m *Model) ruleDONE(r *Results) {
 				nCoalesce++
 				// must be in a goroutine body that first receives from per-collection channels, once
 				r.check(goroutineBody && !inCycle(c.Block()), rule, m.declName(f)+" / coalesced close", m.instrPos(c), "the caller's done channel is closed once, by the coalescing goroutine", "the caller's done channel may be closed more than once or outside the coalescing goroutine")
+				// ... and only after every per-collection channel was received from: the waits in the
+				// coalescing function are plain receives, not selects that have another way out
+				early := ""
+				for _, b := range f.Blocks {
+					for _, ins := range b.Instrs {
+						if sel, ok := ins.(*ssa.Select); ok {
+							recvs := 0
+							for _, st := range sel.States {
+								if st.Dir == types.RecvOnly {
+									recvs++
+								}
+							}
+							if recvs > 0 && (len(sel.States) > 1 || !sel.Blocking) {
+								early = m.instrPos(sel)
+							}
+						}
+					}
+				}
+				r.check(early == "", rule, m.declName(f)+" / the close waits for every per-collection feed", m.instrPos(c), "the coalescing function waits with plain receives", "the function that closes the caller's done channel waits for the per-collection channels in a select that has another way out (at "+early+"): the caller is told the feed has ended while per-collection feeds are still inside their callbacks, and further callbacks can follow")
 			}
 		})
 	}
